@@ -98,7 +98,10 @@ def run_migration(ctx, files, faults, label):
         if not isinstance(path, str):
             raise Unsupported('open of a non-constant path')
         maybe_fault('open(%s,%s)' % (path.split('/')[-1], mode))
-        if mode == 'w':
+        if mode == 'w' and path == SETTINGS:
+            fs.files[path] = ('settings', 'lost')          # opening for writing truncates: the user's settings are gone until rewritten
+            boundary('truncated:settings.yaml')
+        elif mode == 'w':
             fs.files[path] = ('conv', 'empty') if path == RULES else ('other', 'empty')
             boundary('created:' + path.split('/')[-1])
         elif mode == 'r' and path not in fs.files:
@@ -129,6 +132,11 @@ def run_migration(ctx, files, faults, label):
                 boundary('appended:settings.key_line')
             else:
                 boundary('appended:settings.comment')
+        elif path == SETTINGS and isinstance(data, tuple) and data[:2] == ('CONTENT+', SETTINGS) and data[2] is not None:
+            # the old content (plus a suffix without the key) written back: a torn write leaves a prefix of it
+            boundary('partial_rewrite:settings.yaml')
+            fs.files[path] = data[2]
+            boundary('rewritten:settings.yaml')
         elif path == SETTINGS:
             fs.files[path] = ('settings', 'lost')
             boundary('settings_overwritten')
@@ -154,6 +162,23 @@ def run_migration(ctx, files, faults, label):
             raise Unsupported('content test %r' % (item,))
         return orig_contains(container, item, node)
     I.contains = contains
+    # other tests on / derivations of the content read from a file: its text is abstract, so a test on it is nondeterministic (both outcomes explored)
+    orig_method, orig_binop = I.method, I.binop
+
+    def method(o, attr, args, kwargs, node):
+        if isinstance(o, tuple) and o and o[0] == 'CONTENT' and attr in ('endswith', 'startswith', 'isspace'):
+            return bool(ctx.choose(2, 'content.%s@%d' % (attr, getattr(node, 'lineno', 0))))
+        if isinstance(o, tuple) and o and o[0] == 'CONTENT' and attr in ('rstrip', 'strip'):
+            return ('CONTENT+', o[1], o[2])
+        return orig_method(o, attr, args, kwargs, node)
+
+    def binop(op, a, b, node):
+        if isinstance(a, tuple) and a and a[0] in ('CONTENT', 'CONTENT+') and isinstance(b, str) and isinstance(op, ast.Add):
+            if 'merchants_file' in b:
+                raise Unsupported('settings key written through a rewrite')
+            return ('CONTENT+', a[1], a[2])
+        return orig_binop(op, a, b, node)
+    I.method, I.binop = method, binop
 
     def m_move(I_, a, k, n):
         src, dst = a
